@@ -699,6 +699,27 @@ def run_dm(ctx, exe, drv, quick, acc):
 # ---------------------------------------------------------------------------------------------- end extension H (DM)
 
 
+def lf_recheck(ctx, exe, case, ns):
+    """For c15.py's LF mode (fresh-id model Lfq.v): the real code's hazard validation `if (tail != q->tail) continue;` compares ADDRESSES,
+    so it falls through when the node it loaded has meanwhile been freed, handed out again and become q->tail / q->head again; the
+    fresh-id model compares ids and predicts a retry.  That is not a defect (lfqr_refines_lfq: the reclaiming machine's step is matched by
+    4 steps of the fresh-id machine) but the LF replay differs at that grant.  Re-run the same case in LR mode against the reclaiming
+    model; returns (True, n_grants) when every grant agrees and the oracles accept the implementation's trace."""
+    from . import c15 as base
+    drv = ctx.model_driver("c15ext_driver")
+    c = dict(mode="LR", cap=case["cap"], hi=case.get("hi", 0), progs=case["progs"], sched=case["sched"])
+    hdr, hout, rc = run_harness(exe, [c], ns, timeout=300)
+    rcm, mout, merr = core.run_lines(drv, [d_line(c, int(hdr[3]))], timeout=300)
+    il = split_cases([c], hout)[0]
+    ml = split_cases([c], [norm(l) for l in mout])[0]
+    if il is None or ml is None or il[-1] == "INCOMPLETE":
+        return False, 0
+    ig, mg = grants(il), grants(ml)
+    ok = core.first_diff(ig, mg) is None and il[-1].split("|")[1].split() == ml[-1].split("|")[1].split()
+    ok = ok and not (base.lf_oracle(c, il) or lr_struct_oracle(il))
+    return ok, len(ig)
+
+
 def run_ext(ctx, quick):
     t0 = time.time()
     pr = ctx.coq_properties("Properties/Properties_C15_ext.v")
